@@ -22,6 +22,7 @@ def gen_case(rng):
     sn = []
     for S in Ss:
         e = a0 * S + b0 + (rng.uniform(-0.2, 0.2) if rng.random() < 0.7 else 0.0)
+        e = max(e, 0.5)            # lives of at least a few cycles: keeps 10**(fit) inside binary64 for every stress level used
         N = 10.0 ** e if rng.random() < 0.7 else float(10 ** max(1, round(e)))
         sn.append((N, float(S)))
     lim = float(rng.choice([40, 100, 200, 300]))
@@ -85,8 +86,10 @@ def explore(res, rng, n):
                     fail(res, 'the input arrays of the caller were modified', case, {'sn_after': sn_arr.tolist()[:3]})
             for S in [lim, lim * 0.5, lim + 1.0, 777.0, math.nextafter(lim, math.inf), lim * (1 + 1e-7), lim * (1 - 1e-7)]:
                 v = fitter.getN(S)
+                fv = float(v)
+                lv = 'sentinel' if v == -1 else (math.log10(fv) if 0 < fv < math.inf else (-math.inf if fv <= 0 else math.inf))
                 reqs.append(f'miner logN {gen.bits(lim)} {enc(sn)} {gen.bits(S)}')
-                meta.append(('logN', {'sn': sn, 'limit': lim, 'S': S}, 'sentinel' if v == -1 else math.log10(float(v))))
+                meta.append(('logN', {'sn': sn, 'limit': lim, 'S': S}, lv))
             # ---- consequences on the implementation
             f = lambda rr: float(fdm.minerDamageModelClassic([list(r) for r in rr], SN(), lim))
             rows2 = gen_case(rng)[2]
